@@ -178,19 +178,23 @@ Definition spool_ev (b : N) (st : spst) (e : wev) : spst :=
 Definition spool (b : N) (evs : list wev) : spst := fold_left (spool_ev b) evs (SpMem []).
 
 (** Writing the same events to a fresh regular text file (ContentsWithCachedPathFromWriteToBase._to_file,
-    TransformedContentsViaAsLinesBase._to_file).  What Python writes stays in the buffer of the file
-    object until it is closed (texts smaller than the 8 KiB buffer); what a child process writes
-    through the file descriptor reaches the file at once - the buffer is NOT flushed before the
-    descriptor is handed to the child, so the child's output lands BEFORE everything Python wrote
-    (known finding KF-C14-3; with a single event this is plain writing). *)
+    TransformedContentsViaAsLinesBase._to_file): plain appending.  What Python writes is flushed
+    before the descriptor of the file is handed to a child process (commit 527f9c3), so the child's
+    output follows it. *)
 Definition wev_text (e : wev) : text :=
   match e with
   | WStr s => write_text s
   | WLines ls => write_text (concat ls)
   | WFd r => r
   end.
+Definition file_of_events (evs : list wev) : raw := concat (map wev_text evs).
+
+(** The same BEFORE the repair 527f9c3 (found by this check): the buffer of the file object was not
+    flushed before its descriptor was handed to the child, so (for texts smaller than the 8 KiB
+    buffer) the child's output landed BEFORE everything Python wrote.  Kept only for the refutation
+    witness [C14_prefix_concat_file_refuted]. *)
 Definition is_fd (e : wev) : bool := match e with WFd _ => true | _ => false end.
-Definition file_of_events (evs : list wev) : raw :=
+Definition file_of_events_prefix (evs : list wev) : raw :=
   concat (map wev_text (filter is_fd evs)) ++ concat (map wev_text (filter (fun e => negb (is_fd e)) evs)).
 
 (** ** Frozen contents (frozen.frozen__from_write) *)
